@@ -326,6 +326,10 @@ pub fn check_session(s: &Session, rec: &mut CaseRec) -> Verdict {
                 if r.state != St::Idle {
                     return Verdict::fail("not-idle-after-error", format!("intent #{} {:?}: state {:?} after {}", ii, intent, r.state, e.text));
                 }
+                if e.line.is_some() && e.caret.len() != 2 {
+                    // an error located on a program line can always be shown with that line
+                    return Verdict::fail("no-source-line-for-located-error", format!("intent #{} {:?}: error {} renders {:?}", ii, intent, e.text, e.caret));
+                }
                 if let Err(why) = caret_well_formed(e) {
                     return Verdict::fail("caret-malformed", format!("intent #{} {:?}: error {} renders {:?}: {}", ii, intent, e.text, e.caret, why));
                 }
